@@ -169,7 +169,7 @@ pub struct RefServer {
     pub auth: Option<(Policy, String)>,
 }
 
-#[derive(Debug, Default)]
+#[derive(Debug, Default, Clone)]
 pub struct Expected {
     /// reply PDU (None = silence)
     pub reply: Option<Vec<u8>>,
